@@ -84,6 +84,13 @@ static std::vector<Conf> menu()
     c.long_run = 4;
     m.push_back(c);
   }
+  // total forces of a variable with several components under the one-step-late convention: every component's projection
+  // of the total force is a work item of its own
+  m.push_back({"two-component-variable-total-force",
+               "colvar {\n name s\n outputTotalForce on\n distance {\n componentCoeff 1.5\n group1 { atomNumbers 1 2 }\n group2 { atomNumbers 3 }\n }\n distance {\n componentCoeff -0.5\n group1 { atomNumbers 4 }\n group2 { atomNumbers 5 }\n }\n}\n"
+               "colvar {\n name d2\n outputTotalForce on\n distance {\n group1 { atomNumbers 3 }\n group2 { atomNumbers 4 }\n }\n}\n"
+               "harmonic {\n name h1\n colvars s\n centers 0.5\n forceConstant 2.0\n}\n",
+               false, false, 5});
   // (OPES' own parallel regions are compiled only with -DOPES_THREADING, which no build system of the
   //  repository defines: they are not part of this build and are left out)
   return m;
@@ -102,6 +109,9 @@ static void place(vproxy &px, long s)
   static const double P[5][3] = {{0, 0, 0}, {1.5, 0, 0}, {0.2, 1.4, 0.3}, {-0.4, 0.6, 1.6}, {1.1, -0.8, 0.9}};
   for (int a = 0; a < 5; a++)
     px.x[a] = cvm::rvector(P[a][0] + 0.13 * s * (a + 1), P[a][1] - 0.07 * s * a, P[a][2] + 0.05 * s * ((a * 7) % 3 - 1));
+  // forces of the simulated system (they only matter to variables that calculate total forces)
+  for (int a = 0; a < 5 && a < (int) px.fsys.size(); a++)
+    px.fsys[a] = cvm::rvector(0.4 * (a + 1) - 0.3 * s, -0.2 * a + 0.15 * s * (a % 2), 0.1 * (a * a) - 0.25 * s);
 }
 
 static Outcome execute(Conf const &c, int mode, int T, std::vector<int> const &prefix, int nsteps, const char *smp_kw)
@@ -135,6 +145,7 @@ static Outcome execute(Conf const &c, int mode, int T, std::vector<int> const &p
     for (auto *cv : *(px->colvars->variables())) {
       colvarvalue const &v = cv->value();
       if (v.type() == colvarvalue::type_scalar) o.nums.push_back(v.real_value);
+      if (v.type() == colvarvalue::type_scalar && cv->is_enabled(colvardeps::f_cv_total_force_calc)) o.nums.push_back(cv->total_force().real_value);
       if (cv->is_enabled(colvardeps::f_cv_collect_gradient))
         for (auto const &g : cv->atomic_gradients) { o.nums.push_back(g.x); o.nums.push_back(g.y); o.nums.push_back(g.z); }
     }
